@@ -341,6 +341,11 @@ def check(case, ctx):
         for ri, row in enumerate((1, 100, 150)):
             src_enum.append({'via': 'source-raise', 'at': case['res_pick'] % (n + 1), 'row': row, 'exc': exc_name,
                              'modes': (('process', 'results')[(ci + ri) % 2],)})
+    # a StopIteration escaping from a user callable (the classic next() on an exhausted lookup) must fail the run, not
+    # end the resource early: enumerated for every callable-taking step kind
+    for vi, via in enumerate(['row_fn', 'filter_rows', 'add_computed', 'set_type', 'validate', 'sort_rows']):
+        src_enum.append({'via': via, 'at': (case['res_pick'] + vi) % (n + 1), 'row': 1, 'exc': 'StopIteration',
+                         'modes': (('process', 'results')[vi % 2],)})
     for x in list(case['extra']) + src_enum:
         for mode in x.get('modes', ('process', 'results')):
             label = {'fault': x['via'], 'at': x['at'], 'row': x['row'], 'exc': x['exc'], 'program': prog}
